@@ -3,6 +3,7 @@ NEXT Next
 INVARIANT NoCrash19
 INVARIANT SampleOK
 INVARIANT SampleDistOK
+INVARIANT WideSampleOK
 INVARIANT DensityExpOK
 INVARIANT BinReprOK
 INVARIANT SnapshotOK
